@@ -531,6 +531,15 @@ def setitem(arr, key, val):
             return sym.ite(mk(lift(i) == lift(row)), sym.index_into(val, (j,), 1), old(i, j))
         arr.fn = fn
         return
+    if arr.ndim == 2 and len(key) == 2 and isinstance(key[0], slice) and key[0] == slice(None) \
+            and isinstance(key[1], (int, np.integer)) and not isinstance(key[1], bool):
+        col = int(key[1]) if key[1] >= 0 else arr.shape[1] + int(key[1])
+        _bounds_obligation(col, arr.shape[1])
+
+        def fn(i, j):
+            return sym.ite(mk(lift(j) == col), sym.index_into(val, (i,), 1), old(i, j))
+        arr.fn = fn
+        return
     if len(key) == 1 and isinstance(key[0], (list, np.ndarray)) and not deep_sym(key[0]) and isinstance(val, SArr) \
             and val.ndim == arr.ndim:
         # a[[i0, i1, ...]] = v : row v[t] goes to row i_t (later entries win, as in NumPy)
@@ -1884,6 +1893,37 @@ class ObjArr:
     def __getitem__(self, k):
         r = self.data[k]
         return ObjArr(r) if isinstance(r, list) else r
+
+    def astype(self, t):
+        """datetime objects -> datetime64[<unit>]: integer counts of the unit (floored), as NumPy does.  The count is
+        taken from a fixed origin that is a whole number of days before the epoch, so differences and order are those of
+        the datetime64 values."""
+        name = getattr(t, "__name__", str(t))
+        if name.startswith(("M8[", "datetime64[")) and len(self.shape) == 2:
+            unit = name[name.index("[") + 1:-1]
+            per = sym.TIME_UNIT_US[unit]
+            if per != int(per) or int(per) < 1:
+                raise OutsideSubset("astype(%s) of datetime objects" % name)
+            rows = self.data
+
+            def fn(i, j):
+                if isinstance(i, Sym) or isinstance(j, Sym):
+                    raise OutsideSubset("symbolic index into an array of datetime objects")
+                return mk(lift(rows[i][j].us()) / int(per))
+            out = SArr(self.shape, fn, "int")
+            out.time_unit = unit
+            return out
+        raise OutsideSubset("astype(%s) of an object array" % name)
+
+
+def sarr_tolist(arr):
+    if any(isinstance(n, Sym) for n in arr.shape):
+        raise OutsideSubset("tolist() of a symbolic-shape array")
+    if arr.ndim == 1:
+        return [arr.fn(i) for i in range(arr.shape[0])]
+    if arr.ndim == 2:
+        return [[arr.fn(i, j) for j in range(arr.shape[1])] for i in range(arr.shape[0])]
+    raise OutsideSubset("tolist() of rank %d" % arr.ndim)
 
 
 def _shape_of_nested(d):
